@@ -1451,7 +1451,8 @@ class Engine:
                 shape = tuple(d if isinstance(d, int) else self.fresh_int(name + "_dim", lo=0) for d in v.shape)
             else:
                 shape = v.shape        # only written in place inside the loop: same buffer shape
-            return fresh_symbolic(name, shape, dtype=v.kind, eng=self)
+            # the havocked array keeps the *ownership* of the original (a parameter's buffer stays a parameter's buffer)
+            return fresh_symbolic(name, shape, dtype=v.kind, eng=self, origin=v.buf.origin if (v.buf.origin or "").startswith("param:") else None)
         raise Unsupported("default havoc of %s (%s): give a factory in the loop contract" % (name, type(v).__name__))
 
     # ------------------------------------------------------------------ assignment targets
@@ -1910,7 +1911,20 @@ class Engine:
                     return b_and(*conds)
                 return models.SymSet(mem)
             if g0.ifs:
-                raise Unsupported("filtered comprehension over symbolic sequence")
+                if kind != "gen":
+                    raise Unsupported("filtered comprehension over symbolic sequence")
+                seq0 = it
+
+                def cond(x):
+                    ce = Env(parent=env)
+                    self.assign(g0.target, x, ce)
+                    return b_and(*[self.as_bool(self.eval(c, ce)) for c in g0.ifs])
+
+                def elt(x):
+                    ce = Env(parent=env)
+                    self.assign(g0.target, x, ce)
+                    return self.eval(e.elt, ce)
+                return models.FilteredGen(seq0, cond, elt)
             seq = it
 
             def get(k, seq=seq):
